@@ -112,8 +112,30 @@ def dm2numpy_enumerated():
     (c.ok if out.shape == (2,) else lambda *a, **k: c.fail(a[0], "shape"))("casadi_helpers:DM2numpy:ensures:no-time-dimension")
 
 
+def methodless_master():
+    """an Ocp without dynamics: value() of expressions of its variables and parameters"""
+    from rockit import Ocp
+    from .backend import ufun, unknown
+    c = ctx()
+    ocp = Ocp()
+    a = ocp.variable(2); b = ocp.variable(); q = ocp.parameter(); r = ocp.parameter(2)
+    ocp.set_value(q, unknown("qv", 1, 1)); ocp.set_value(r, unknown("rv", 2, 1))
+    ocp.subject_to(ufun("cc", 1, [a, b, q, r]) <= 1)
+    ocp.add_objective(ufun("oo", 1, [a, b, q]))
+    ocp.solver("ipopt")
+    e = ufun("ve", 2, [a, b, q, r])
+    val = ocp.value(e)
+    m = ocp._augmented._method
+    V, P = ca.MX(m.V), m.P
+    nlp.prove_equal("C07/methodless|stage:Stage.value:ensures:variables-and-parameters-keep-their-own-values", val, ufun("ve", 2, [V[:2], V[2], P[0], P[1]]))
+    opti = m.opti
+    nlp.prove_equal("C07/methodless|direct_method:DirectMethod.transcribe:ensures:objective", opti._f, ufun("oo", 1, [V[:2], V[2], P[0]]))
+    rows = nlp.emitted_rows(opti)
+    nlp.match_rows("C07/methodless|direct_method:DirectMethod.transcribe:ensures:point-constraint", rows, [("le", (ufun("cc", 1, [V[:2], V[2], P[0], P[1]]) - 1).e[0], ("cc",))])
+
+
 def tasks(tier):
-    out = []
+    out = [Task("C07/methodless-master", methodless_master, kind="bounded", bound=dict(variables=[2, 1], parameters=[1, 2]))]
     exprs = lambda: [(E("s1", 1, ("x", "u", "t", "p", "pc", "pcp", "v", "vc", "vcp", "T", "t0")), None),
                      (E("s3", 3, ("x", "t")), None),
                      (E("sm", 4, ("x", "u")), (2, 2)),
